@@ -2,19 +2,20 @@
 
    All statements are about schedules (lists of atomic actions of the machine, session and poller threads) of the
    lock-granularity protocol model model/Dap.v; the CPU (the whole TestRunner) is abstract, so they hold for every
-   program, every breakpoint set and runs of any length.  `StateHeld` is the protocol of the current adapter
-   (after fix ea42293), `Legacy` the protocol of the adapter as pinned.  What the model cannot exhibit: which of these
+   program, every breakpoint set and runs of any length.  `adapter_protocol` (Gen/DapShape.v) is the protocol
+   translate/t_dap.py reads off the lock structure of the adapter's source on every run: `StateHeld` for the current
+   adapter (after fix ea42293), `Legacy` for the adapter as pinned.  What the model cannot exhibit: which of these
    schedules the operating system actually produces (checks/c19.py samples that on the real adapter under hook H3). *)
 From Coq Require Import List ZArith Bool.
 Import ListNotations.
-From Mos Require Import model.Dap spec.DapSpec proofs.DapProofs.
+From Mos Require Import model.Dap model.DapStep Gen.DapShape spec.DapSpec spec.DapStepSpec proofs.DapProofs proofs.DapStepProofs.
 Open Scope Z_scope.
 
 (* Current adapter: in every reachable state in which Stopped(p) is published and the session is not in the middle of
    a step command, the machine thread cannot execute an instruction and p is the CPU's program counter. *)
 Theorem C19_inv : forall (cpu : Type) (pc : cpu -> Z) (step : cpu -> cpu) (fin : cpu -> bool)
     (step_over step_out : cpu -> cpu) (c0 : cpu) (tr : list action) (s : st cpu),
-  run cpu pc step fin step_over step_out StateHeld tr (init c0) = Some s ->
+  run cpu pc step fin step_over step_out adapter_protocol tr (init c0) = Some s ->
   Inv cpu pc s.
 Proof. exact inv_stateheld. Qed.
 Print Assumptions C19_inv.
@@ -22,8 +23,8 @@ Print Assumptions C19_inv.
 (* what a stackTrace response carries is the CPU's program counter, and the machine is halted when it is sent *)
 Theorem C19_stacktrace_is_cpu_pc : forall (cpu : Type) (pc : cpu -> Z) (step : cpu -> cpu) (fin : cpu -> bool)
     (step_over step_out : cpu -> cpu) (c0 : cpu) (tr : list action) (s s' : st cpu) (p : Z),
-  run cpu pc step fin step_over step_out StateHeld tr (init c0) = Some s ->
-  step_act cpu pc step fin step_over step_out StateHeld S_stack s = Some (s', [OStack (Stopped p)]) ->
+  run cpu pc step fin step_over step_out adapter_protocol tr (init c0) = Some s ->
+  step_act cpu pc step fin step_over step_out adapter_protocol S_stack s = Some (s', [OStack (Stopped p)]) ->
   p = pc (cp s) /\ machine_cannot_execute cpu s.
 Proof. exact stacktrace_is_cpu_pc. Qed.
 Print Assumptions C19_stacktrace_is_cpu_pc.
@@ -34,10 +35,10 @@ Print Assumptions C19_stacktrace_is_cpu_pc.
    address unchanged, and the address stays the CPU's program counter. *)
 Theorem C19_halted_stable : forall (cpu : Type) (pc : cpu -> Z) (step : cpu -> cpu) (fin : cpu -> bool)
     (step_over step_out : cpu -> cpu) (c0 : cpu) (tr0 tr : list action) (s s' : st cpu) (p : Z),
-  run cpu pc step fin step_over step_out StateHeld tr0 (init c0) = Some s ->
+  run cpu pc step fin step_over step_out adapter_protocol tr0 (init c0) = Some s ->
   rs s = Stopped p -> observing cpu s = true ->
   forallb (fun a => negb (run_control a)) tr = true ->
-  run cpu pc step fin step_over step_out StateHeld tr s = Some s' ->
+  run cpu pc step fin step_over step_out adapter_protocol tr s = Some s' ->
   cp s' = cp s /\ rs s' = Stopped p /\ p = pc (cp s').
 Proof. exact halted_stable_reachable. Qed.
 Print Assumptions C19_halted_stable.
@@ -80,8 +81,8 @@ Print Assumptions C19_pause_overrun_le_1.
 Theorem C19_bp_no_overrun : forall (cpu : Type) (pc : cpu -> Z) (step : cpu -> cpu) (fin : cpu -> bool)
     (step_over step_out : cpu -> cpu) (c0 : cpu) (tr : list action),
   no_self_loop cpu pc step fin ->
-  disciplined cpu pc step fin step_over step_out StateHeld tr (init c0) = true ->
-  bp_ok cpu pc step fin step_over step_out StateHeld tr (init c0) false = true.
+  disciplined cpu pc step fin step_over step_out adapter_protocol tr (init c0) = true ->
+  bp_ok cpu pc step fin step_over step_out adapter_protocol tr (init c0) false = true.
 Proof. exact bp_no_overrun. Qed.
 Print Assumptions C19_bp_no_overrun.
 
@@ -95,6 +96,61 @@ Theorem C19_bp_self_loop_refuted :
     bp_ok cpu pc step fin so sout StateHeld self_loop_schedule (init c0) false = false.
 Proof. exact bp_self_loop_refuted. Qed.
 Print Assumptions C19_bp_self_loop_refuted.
+
+(* ---- stepping (model/DapStep.v: TestRunner::step_over / step_out on the uninterrupted run, indexed by instruction).
+   The step commands only ever call execute_instruction, so they move along the uninterrupted run: a command started at
+   index i leaves the machine at an index j >= i having executed exactly the instructions i .. j-1 of that run. *)
+Theorem C19_step_sequence : forall (pcT spT opT retT : Z -> Z) (fuel : nat) (i j : Z),
+  (step_over pcT opT fuel i = Some j \/ step_out pcT spT opT retT fuel i = Some j \/ exec_in opT i = j) -> i <= j.
+Proof. exact step_forward. Qed.
+Print Assumptions C19_step_sequence.
+
+(* `next` on a JSR is one step: it lands where the call has just returned (first index after i at i's call depth),
+   provided the CPU returns calls to the instruction after them and the return address is not passed inside the call
+   (a recursive call through the same site stops `next` early).  On anything else `next` is `stepIn`. *)
+Theorem C19_next_over_call : forall (pcT opT : Z -> Z) (fuel : nat) (i j : Z),
+  returns_to_caller pcT opT ->
+  returns_at opT i j ->
+  (forall k, i < k < j -> pcT k <> pcT i + 3) ->
+  (forall k, i <= k < j -> finT opT k = false) ->
+  (Z.to_nat (j - i) <= fuel)%nat ->
+  step_over pcT opT fuel i = Some j.
+Proof. exact next_over_call. Qed.
+Print Assumptions C19_next_over_call.
+
+Theorem C19_next_plain : forall (pcT opT : Z -> Z) (fuel : nat) (i : Z),
+  is_jsr opT i = false -> step_over pcT opT fuel i = Some (exec_in opT i).
+Proof. exact next_plain. Qed.
+Print Assumptions C19_next_plain.
+
+(* `stepOut` lands on the instruction after the call of the current frame when the two bytes above the stack pointer
+   are that call's return address (the subroutine has nothing of its own on the stack) *)
+Theorem C19_stepout_clean : forall (pcT spT opT retT : Z -> Z) (fuel : nat) (c i j : Z),
+  returns_to_caller pcT opT ->
+  frame_call opT c i -> returns_at opT c j -> i <= j ->
+  retT i = pcT c + 3 ->
+  spT i <= 253 ->
+  (forall k, i <= k < j -> pcT k <> pcT c + 3) ->
+  (forall k, i <= k < j -> finT opT k = false) ->
+  (S (Z.to_nat (j - i)) <= fuel)%nat ->
+  step_out pcT spT opT retT fuel i = Some j.
+Proof. exact stepout_clean. Qed.
+Print Assumptions C19_stepout_clean.
+
+(* F-C19b (class Known_stepout_stack_dirty): `pha ... stepOut`.  On the run of corpus/C19/stepout_after_pha.asm, stopped on
+   the `nop` after the `pha` (index 4, frame of the call at index 2, which returns at index 7), step_out takes
+   1 + A + 256 * (low byte of the return address) = $0608 for the return address and runs to the test's brk (index 8). *)
+Theorem C19_stepout_dirty_refuted :
+  frame_call w_op 2 4 /\ returns_at w_op 2 7 /\ w_pc 7 = w_pc 2 + 3 /\
+  w_ret 4 <> w_pc 2 + 3 /\
+  step_out w_pc w_sp w_op w_ret 100 4 = Some 8.
+Proof. exact stepout_dirty_refuted. Qed.
+Print Assumptions C19_stepout_dirty_refuted.
+
+(* the model's event table is the one translated from DebugSession::handle_machine_event *)
+Theorem C19_event_table : forall e : mevent, event_of e = gen_event_of e.
+Proof. exact event_table_ok. Qed.
+Print Assumptions C19_event_table.
 
 (* non-vacuity: a concrete CPU (pc counts instructions), pause after two instructions in the repaired protocol *)
 Example C19_example_stateheld :
